@@ -57,6 +57,14 @@ RecPort == LET ds == DS  s == PreP \o ds  fits == LessEq(Val(ds), PortMaxW) IN
            ELSE [nerr |-> "ok"],
    src |-> "decl", prop |-> "C10"]
 
+\* the same without a user part (the digits are first read as a possible password) and with parameters behind the port
+PrePH == <<115, 105, 112, 58, 104, 46, 120, 58>>                                     \* "sip:h.x:"
+RecPortH(tail) == LET ds == DS  s == PrePH \o ds \o tail  fits == LessEq(Val(ds), PortMaxW) IN
+  [fn |-> "ParseURI", args |-> [s |-> s],
+   res |-> IF fits THEN [err |-> "ok", offs |-> Len(s), uri |-> [PortNo |-> Val(ds)[1], Port |-> <<Len(PrePH), Len(ds)>>]]
+           ELSE [nerr |-> "ok"],
+   src |-> "decl", prop |-> "C10"]
+
 \* q: integer part ip, optional '.', decimals dp.  Valid iff value <= 1.000 with at most three decimals.
 QInts == QWrapInts \o <<<<>>, <<48>>, <<49>>, <<50>>, <<48, 48, 49>>, <<49, 48>>, DigitStrings[Len(DigitStrings)], <<48,48,48,48,48,48,48,48,48,48,48,48,48,48,48,48,48,48,48,48,48,48,49>>,
            <<49,56,52,52,54,55,52,52,48,55,51,55,48,57,53,53,49,54,49,55>> >>
@@ -87,7 +95,8 @@ Emit == CASE Pos = "expires"  -> InCut(DS) => PrintT(ToJson(RecExpires))
           [] Pos = "clen"     -> InCut(DS) => PrintT(ToJson(RecCLen))
           [] Pos = "cseq"     -> InCut(DS) => PrintT(ToJson(RecCSeq))
           [] Pos = "cexpires" -> InCut(DS) => PrintT(ToJson(RecCExpires))
-          [] Pos = "port"     -> cut = 0 => PrintT(ToJson(RecPort))
+          [] Pos = "port"     -> cut = 0 => /\ PrintT(ToJson(RecPort)) /\ PrintT(ToJson(RecPortH(<<>>)))
+                                            /\ PrintT(ToJson(RecPortH(<<SEMI, 112>>))) /\ PrintT(ToJson(RecPortH(<<QM, 104, EQ, 118>>)))
           [] Pos = "q"        -> PrintT(ToJson(RecQ(d)))
 \* model-level sanity of the decimal arithmetic: value of "4294967296" is 2^32, of "65535" is 65535
 Arith == /\ Val(<<52,50,57,52,57,54,55,50,57,54>>) = Lim(<<0, 0, 1>>)
